@@ -71,3 +71,9 @@ MUTANTS += [
        "    def __eq__(self, other):\n        return isinstance(other, MediaPart) and self.sha1 == other.sha1\n\n    def __hash__(self):\n        return hash(self.sha1)\n\n    @lazyproperty\n    def sha1(self)")],
      "R2.8 MediaPart.__eq__"),
 ]
+
+MUTANTS += [
+    ("embedded-pptx-main-type", "an embedded presentation is declared with the main presentation content type",
+     [("src/pptx/parts/embeddedpackage.py", "    content_type = CT.PML_PRESENTATION\n", "    content_type = CT.PML_PRESENTATION_MAIN\n")],
+     "R2.5 EmbeddedPackagePart.new"),
+]
